@@ -182,8 +182,15 @@ def rule_once(ctx: Ctx) -> List[Ob]:
         missed = []
         if ok:
             # ... and on every path to every return (a callable stop criterion is resolved exactly once per run)
+            # (a path on which the argument is found NOT callable needs no call: the false edge of `callable(<p>)`)
             cn = mm.cfg.node_of(calls[0])
-            missed = [r.lineno for r in mm.returns if not mm.cfg.dominates(cn, mm.cfg.node_of(r))]
+
+            def not_callable_edge(a, b, lab, p=p):
+                t = a.ast
+                return not (a.kind == "test" and isinstance(t, ast.Call) and dotted(t.func) == "callable" and len(t.args) == 1
+                            and src(t.args[0]) == p and lab is False)
+            free = mm.cfg.reachable(mm.cfg.entry, follow_exc=False, avoid=lambda m: m is cn, edge_ok=not_callable_edge)
+            missed = [r.lineno for r in mm.returns if mm.cfg.node_of(r) in free]
             ok = not missed
         obs.append(ob("ONCE", f"{p}() has one call site outside every loop", mm.f, calls[0] if calls else mm.f.node, ok,
                       f"{len(calls)} call site(s), {len(inloop)} inside a loop, handed to {len(passed)} other callee(s)" +
